@@ -201,6 +201,23 @@ Proof.
   cbn [flat_map map]. rewrite letter_string by exact Hc. rewrite IH. reflexivity.
 Qed.
 
+(* (c') (repository commit 90aab9d) the prefix is built in place: prefixBytes[i] = lowerCase(str[i]) over a
+   segment of str; the result is the map of h over the segment (no UTF-8 re-encoding any more) *)
+Lemma idx_store_loop (h : N -> N) str mid : forall pre rest done tail,
+  str = pre ++ mid ++ rest -> length done = length pre ->
+  Go.foldM (fun ret i => do t <- Go.idx str i ;; do ret <- Go.upd ret i (h t) ;; Ok ret)
+    (Go.zseq (Z.of_nat (length pre)) (length mid)) (done ++ repeat 0 (length mid) ++ tail)
+  = Ok (done ++ map h mid ++ tail).
+Proof.
+  induction mid as [|c t IH]; intros pre rest done tail E Hl; [reflexivity|].
+  cbn [length Go.zseq Go.foldM repeat app map]. rewrite E at 1. cbn [app]. rewrite idx_mid. cbn [rbind].
+  rewrite <- Hl. rewrite upd_mid. cbn [rbind]. rewrite Hl.
+  specialize (IH (pre ++ [c]) rest (done ++ [h c]) tail).
+  rewrite <- !app_assoc in IH. cbn [app] in IH.
+  rewrite !app_length, Nat2Z.inj_add in IH. cbn [length] in IH. change (Z.of_nat 1) with 1%Z in IH.
+  apply IH; [exact E | lia].
+Qed.
+
 (* (e) the values loop.  One step of the model's [to_values]: *)
 Definition val_step (c : N) : res N :=
   if D 17 <? c then Err 6 else
@@ -306,12 +323,16 @@ Proof.
   destruct (up && lo); [reflexivity|].
   destruct Hinv as [[H0 _]|[_ [Hlt Hlet]]]; [contradiction|].
   set (n := N.to_nat ps) in *.
-  (* (c) the prefix loop *)
+  (* (c) the prefix: make + the store loop *)
   assert (Estr : str = [] ++ firstn n str ++ skipn n str) by (cbn [app]; now rewrite firstn_skipn).
   assert (Hn : Z.to_nat (Z.of_N ps) = length (firstn n str)) by (rewrite firstn_length; lia).
-  rewrite Hn.
-  rewrite (concat_loop _ str (firstn n str) [] (skipn n str) [] Estr). clear Estr Hn.
-  cbn [app rbind]. rewrite flat_map_letters by exact Hlet.
+  replace (Go.make 0 (Z.of_N ps)) with (Go.make 0 (Z.of_nat (length (firstn n str))))
+    by (f_equal; rewrite firstn_length; lia).
+  rewrite make_nat. cbn [rbind]. rewrite Hn.
+  pose proof (idx_store_loop Kernels2.lowerCase str (firstn n str) [] (skipn n str) [] [] Estr eq_refl) as Hpre.
+  cbn [app length] in Hpre. rewrite !app_nil_r in Hpre. change (Z.of_nat 0) with 0%Z in Hpre.
+  rewrite Hpre. clear Hpre Estr Hn. cbn [rbind].
+  change (map Kernels2.lowerCase (firstn n str)) with (map CashAddr.lower_case (firstn n str)).
   (* (d) make *)
   replace (Z.of_nat (length str) - 1 - Z.of_N ps)%Z with (Z.of_nat (length (skipn (n + 1) str)))
     by (rewrite skipn_length; lia).
